@@ -547,6 +547,8 @@ class Executor(Engine, ExprMixin, StmtMixin, CallMixin):
         result, others = self.run_body(st, fnode, body_env, mod, None, c.qual)
         others = others + self.top_exits
         self.normal_guard = st.guard
+        self.raise_guards = [x.state.guard for x in others if x.kind == 'raise']
+        self.allows_raises = bool(c.raises)
         # postconditions on normal return
         env2 = dict(envl)
         if result is None:
